@@ -77,7 +77,8 @@ def leaves(x, path=()):
 class QuadAnalysis(af.Analysis):
     """-0.5 * sum_k w_k ((x_k - c_k)/s_k)^2 - 0.05 z_0 z_1 over the float leaves x_k of the instance"""
 
-    def __init__(self, centres, scales, weights, quant=0.0):
+    def __init__(self, centres, scales, weights, quant=0.0, hard=False):
+        self.hard = bool(hard)  # a curved valley (quartic coupling): optimisers need many iterations
         self.centres = list(centres)
         self.scales = list(scales)
         self.weights = list(weights)
@@ -91,6 +92,8 @@ class QuadAnalysis(af.Analysis):
         q = sum(w * t * t for w, t in zip(self.weights, z))
         if len(z) >= 2:
             q += 0.1 * z[0] * z[1]
+        if self.hard:
+            q += sum(3.0 * (z[i + 1] - z[i] * z[i]) ** 2 for i in range(len(z) - 1))
         if self.quant > 0.0:
             q = math.floor(q / self.quant) * self.quant
         return -0.5 * q
@@ -99,12 +102,12 @@ class QuadAnalysis(af.Analysis):
         return self.value([v for _, v in leaves(instance)])
 
     def spec(self):
-        return {"centres": self.centres, "scales": self.scales, "weights": self.weights, "quant": self.quant}
+        return {"centres": self.centres, "scales": self.scales, "weights": self.weights, "quant": self.quant, "hard": self.hard}
 
 
-def make_analysis(rng, model, spec=None, quant=0.0):
+def make_analysis(rng, model, spec=None, quant=0.0, hard=False):
     if spec is not None:
-        return QuadAnalysis(spec["centres"], spec["scales"], spec["weights"], spec.get("quant", 0.0))
+        return QuadAnalysis(spec["centres"], spec["scales"], spec["weights"], spec.get("quant", 0.0), spec.get("hard", False))
     n = model.prior_count
     lo = [v for _, v in leaves(model.instance_from_unit_vector([0.3] * n, ignore_prior_limits=True))]
     hi = [v for _, v in leaves(model.instance_from_unit_vector([0.7] * n, ignore_prior_limits=True))]
@@ -115,7 +118,7 @@ def make_analysis(rng, model, spec=None, quant=0.0):
         s = abs(b - a)
         scales.append(s if s > 1e-12 and math.isfinite(s) else 1.0)
         weights.append(rng.choice([0.5, 1.0, 2.0, 3.5]))
-    return QuadAnalysis(centres, scales, weights, quant)
+    return QuadAnalysis(centres, scales, weights, quant, hard)
 
 
 # ---------------------------------------------------------------------------------------------
@@ -803,8 +806,8 @@ def as_lists(a):
 def fit_case(ctx, kind, prog=None, spec=None, settings=None):
     rng = ctx.rng
     # several scipy calls need a problem that does not converge at once: at least 2 free parameters
-    prog, model = gen_model(ctx, prog, min_free=2 if (settings or {}).get("ipu") and prog is None else 1)
-    analysis = make_analysis(rng, model, spec)
+    prog, model = gen_model(ctx, prog, min_free=3 if (settings or {}).get("ipu") and prog is None else 1)
+    analysis = make_analysis(rng, model, spec, hard=bool((settings or {}).get("ipu")))
     settings = settings or {}
     if "pool_map_ordered" not in ctx.notes:
         probe_pool_map_ordered(ctx)
@@ -842,6 +845,8 @@ def fit_case(ctx, kind, prog=None, spec=None, settings=None):
             # several scipy calls per fit: the history is stitched across checkpoints
             extra["iterations_per_update"] = settings["ipu"]
             extra["maxiter"] = settings.get("maxiter", 8)
+            # (no early convergence: every call uses up its iterations, so the history is stitched over several calls)
+            extra.update({"ftol": 0.0, "gtol": 0.0} if kind == "LBFGS" else {"gtol": 0.0})
         search = getattr(af, kind)(visualize=bool(settings.get("history")), number_of_cores=cores, **named, **extra)
     elif kind in ("PySwarmsGlobal", "PySwarmsLocal"):
         search = getattr(af, kind)(n_particles=settings.setdefault("particles", 4), iters=settings.setdefault("iters", 5),
@@ -895,6 +900,9 @@ def fit_case(ctx, kind, prog=None, spec=None, settings=None):
         if ipu:
             tot = int(getattr(internal, "total_iterations", 0) or 0)
             ctx.hit("bfgs-scipy-calls:" + ("1" if tot <= ipu else "2-3" if tot <= 3 * ipu else ">3"))
+            if tot <= ipu:
+                msg = getattr(internal, "message", "")
+                ctx.hit("bfgs-one-call-because:" + str(msg.decode() if isinstance(msg, bytes) else msg)[:40])
         if settings.get("history"):
             ck = "bfgs_hist"
             req = {"q": "bfgs_hist", "hist": [hexrow(list(map(float, r))) for r in internal.parameters_history_list],
@@ -935,6 +943,9 @@ QUICK_FITS = [
     ("LBFGS", {"history": True, "ipu": 2, "maxiter": 8}),
     ("BFGS", {"history": True, "ipu": 2, "maxiter": 6}),
     ("LBFGS", {"history": True, "ipu": 3, "maxiter": 9}),
+    ("LBFGS", {"history": True, "ipu": 2, "maxiter": 10}),
+    ("BFGS", {"history": True, "ipu": 3, "maxiter": 9}),
+    ("LBFGS", {"history": True, "ipu": 1, "maxiter": 5}),
     ("LBFGS", {"ipu": 2, "maxiter": 6}),
     ("PySwarmsGlobal", {}),
     ("PySwarmsLocal", {}),
